@@ -1,6 +1,9 @@
 import TexcraftModel.Lemmas.C05
 import TexcraftModel.Lemmas.C05Loop
 import TexcraftModel.Lemmas.C05Sem
+import TexcraftModel.Lemmas.C05Raw
+import TexcraftModel.Lemmas.C05Text
+import TexcraftModel.Lemmas.C05Typed
 
 /-!
 # C05 — property theorems
@@ -17,7 +20,15 @@ Only the statements that *are* the property live here (helper lemmas: `Lemmas/C0
 * `compiled_eq_interp`  every non-empty word, with and without both boundaries: the glyph/kern
                         sequence of the compiled run is the result of the cursor machine
 * `spell_noLB`, `compiled_eq_interp_noLB`  the same for `RunOptions::disable_left_boundary`
+* `op_byte_abc`, `raw_rule`, `raw_compiled_eq_interp`  from the raw lig/kern words of a TFM file:
+                        the crate's decoding gives every pair the command TeX executes on the
+                        words themselves; raw words → compiled program → run = TeX's main loop
+* `add_word_sem`, `add_text_cut`  the call site in boxworks-text: a word's nodes are the cursor
+                        machine's output in the active font; a text is cut at its glue into the
+                        words of `split_ascii_whitespace`
 * `typed_refines`       the machine with node types has the glyph sequence of `interp`
+* `typed_compiled_eq_interp`  the compiled run types every item (character / ligature node) as
+                        the typed machine does
 * `spell_override`, `compiled_eq_interp_override`  the same for any `RunOptions`: the override
                         replaces the right boundary character of the run
 -/
@@ -244,18 +255,125 @@ example : glyphs (runOpt exBoth false (some 124) [102, 102, 105]) = [.glyph 14, 
 /-! ### Node types
 
 `interpT` is the cursor machine with node types (a ligature node = a character that an
-instruction inserted). Its glyph sequence is that of `interp`, so everything above applies to
-it; that the compiled run *types* its items the same way is checked by correspondence
-(I vs S on every case) and is not a theorem. -/
+instruction inserted). `typed_refines`: its glyph sequence is that of `interp`.
+`typed_compiled_eq_interp`: the compiled run types its items exactly as the machine does. -/
 
 theorem typed_refines (p : Program) (fuel : Nat) (s : List (El × Bool)) :
     (interpT p fuel s).map (List.map TGlyph.erase) = interp p fuel (s.map Prod.fst) :=
   interpT_erase p fuel s
 
+/-- **Characters, ligature glyphs and kerns.** If no pair loops, then for every non-empty word
+the typed cursor machine terminates on `[LB] w [RB?]` and its output — each glyph with the
+information whether it is a character node or a ligature node, and the kerns — is exactly the
+item sequence of the compiled run (`Item.ch` ↦ character, `Item.lig` ↦ ligature). -/
+theorem typed_compiled_eq_interp (p : Program) (w : List Nat) (hac : acyclicB p = true) (hw : w ≠ []) :
+    (∃ fuel, interpT p fuel ((seqOf p w).map (fun e => (e, false))) = some ((runM p w).map Item.tglyph)) ∧
+    (∀ fuel out, interpT p fuel ((seqOf p w).map (fun e => (e, false))) = some out →
+      out = (runM p w).map Item.tglyph) := by
+  obtain ⟨f, hf⟩ := interpT_complete p (runM_semT p hac w hw)
+  exact ⟨⟨f, hf⟩, fun fuel out h => interpT_det p h hf⟩
+
 example : interpT exBoth 20 ((seqOf exBoth [97, 102, 102, 105]).map (fun e => (e, false)))
     = some [.kern 5, .glyph 97 false, .glyph 14 true, .glyph 33 true] := by decide
 example : (runM exBoth [97, 102, 102, 105]).map Item.tglyph
     = [.kern 5, .glyph 97 false, .glyph 14 true, .glyph 33 true] := by decide
+
+/-! ### From the raw words of a TFM file
+
+`decodeFont` is the crate's reader (`Instruction::deserialize`, `lig_kern_operation_from_bytes`,
+`deserialize_lig_kern_program`, `unpack_entrypoint` in `compile_from_tfm_file`); `texRule`,
+`texBchar`, `interpRaw` are TeX's own reading of the same words, indexed from `lig_kern_base`
+(TeX82 §573, §1034, §1039, §1040). -/
+
+/-- Op bytes: for the eight codes of TeX82 §545 the decoded form does what `op = 4a+2b+c`
+says (pass over `a`, keep current iff `b`, keep next iff `c`). -/
+theorem op_byte_abc : ∀ op ∈ [0, 1, 2, 3, 5, 6, 7, 11],
+    (formM op).abc = (op / 4, op / 2 % 2 == 1, op % 2 == 1) := by decide
+
+/-- For every pair, the program the crate decodes from the raw words has the command that TeX
+executes when it walks the words itself: start at `lig_kern_start` / `lig_kern_restart` /
+`bchar_label`, compare `next_char`, never execute a word with `skip_byte > stop_flag`, stop at
+`skip_byte ≥ stop_flag`, else continue at `k + skip_byte + 1`; kerns by index, op bytes by
+§1040. (Characters have one `char_info` word each: distinct keys.) -/
+theorem raw_rule (f : RawFont) (hnd : (f.tags.map Prod.fst).Nodup) (l : Option Nat) (r : Nat) :
+    specRule (decodeFont f) l r = texRule f l r ∧ (decodeFont f).rb = texBchar f := by
+  rw [specRule_eq_rule]
+  exact ⟨rule_decode f hnd l r, rfl⟩
+
+/-- **Raw bytes → compiled program → run**, end to end: if the compiler reports no loop for
+the decoded program, then for every non-empty word TeX's main loop *on the raw words*
+terminates and its output is the glyph/kern sequence of the compiled run. -/
+theorem raw_compiled_eq_interp (f : RawFont) (hnd : (f.tags.map Prod.fst).Nodup) (w : List Nat)
+    (hac : acyclicB (decodeFont f) = true) (hw : w ≠ []) :
+    (∃ fuel, interpRaw f fuel (seqRaw f w) = some (glyphs (runM (decodeFont f) w))) ∧
+    (∀ fuel out, interpRaw f fuel (seqRaw f w) = some out → out = glyphs (runM (decodeFont f) w)) := by
+  have hr : texRule f = specRule (decodeFont f) := by
+    funext l r; exact ((raw_rule f hnd l r).1).symm
+  have hi : ∀ fuel s, interpRaw f fuel s = interp (decodeFont f) fuel s := by
+    intro fuel s
+    simp only [interpRaw, hr]
+    exact interpG_spec (decodeFont f) fuel s
+  have hs : seqRaw f w = seqOf (decodeFont f) w := rfl
+  simp only [hi, hs]
+  exact compiled_eq_interp (decodeFont f) w hac hw
+
+/-- A font in raw words: boundary char `|` (first word, skip 255), character `f` starts at a
+redirect word (word 1 → word 3), `f f → LIG ff` (op 0), `f i → kern 0`, left-boundary program
+at word 5 (`| f → | !` with the cursor past `!`, op 6 = `/LIG>`), read from the last word. -/
+def exRaw : RawFont :=
+  { words := [⟨255, 124, 0, 0⟩, ⟨254, 0, 0, 3⟩, ⟨128, 0, 0, 0⟩, ⟨0, 102, 0, 11⟩, ⟨128, 105, 128, 0⟩,
+              ⟨128, 102, 6, 33⟩, ⟨255, 0, 0, 5⟩],
+    kerns := [7], tags := [(102, 1)] }
+
+example : (exRaw.tags.map Prod.fst).Nodup := by decide
+example : acyclicB (decodeFont exRaw) = true := by decide
+example : texRule exRaw (some 102) 102 = some (.lig 11 .neither) := by decide
+example : texRule exRaw none 102 = some (.lig 33 .leftInserted) := by decide
+example : glyphs (runM (decodeFont exRaw) [102, 102, 105]) = [.glyph 33, .glyph 102, .kern 7, .glyph 105] := by
+  decide
+example : interpRaw exRaw 20 (seqRaw exRaw [102, 102, 105]) = some [.glyph 33, .glyph 102, .kern 7, .glyph 105] := by
+  decide
+example : interpRaw exRaw 20 (seqRaw exRaw [97, 102, 102, 105]) = some [.glyph 97, .glyph 11, .glyph 105] := by
+  decide
+
+/-! ### The call site: `add_word` / `add_text` of the text preprocessor
+
+`addWord`, `addText` model `TextPreprocessorImpl::add_word` and `TextPreprocessor::add_text`
+(nodes and their order; the amount of glue is C12's). -/
+
+/-- One word: the character/ligature/kern nodes `add_word` appends are, in order, what TeX's
+cursor machine produces on `[LB] w [RB?]` with the active font's program; every character and
+ligature node carries the active font; there is no glue inside a word. -/
+theorem add_word_sem (p : Program) (font : Nat) (w : List Nat) (hac : acyclicB p = true) (hw : w ≠ []) :
+    (∃ fuel, interp p fuel (seqOf p w) = some ((addWord p font w).flatMap HNode.glyph)) ∧
+    (∀ n ∈ addWord p font w, n.fontOk font = true ∧ n ≠ HNode.glue) := by
+  rw [addWord_glyphs]
+  exact ⟨(compiled_eq_interp p w hac hw).1,
+    fun n hn => ⟨addWord_fonts p font w n hn, addWord_noGlue p font w n hn⟩⟩
+
+/-- A text: cutting the list `add_text` produces at its glue nodes gives exactly one segment per
+word of `split_ascii_whitespace` (preceded by an empty segment iff the text starts with white
+space), each being `add_word` of that word; the words are non-empty, so `add_word_sem` applies
+to every segment — word boundaries are where the left and right boundary rules fire. -/
+theorem add_text_cut (p : Program) (font : Nat) (t : List Nat) :
+    cutAtGlue (addText p font t) =
+      (if (match t with | c :: _ => isWs c | [] => true) then [[]] else []) ++ (splitWs t).map (addWord p font)
+    ∧ ∀ w ∈ splitWs t, w ≠ [] := by
+  refine ⟨?_, splitWs_nonempty t⟩
+  cases t with
+  | nil => rfl
+  | cons c rest =>
+    simp only [addText]
+    rcases Bool.eq_false_or_eq_true (isWs c) with hc | hc
+    · simp only [hc, if_true, cut_addWords_true, List.cons_append, List.nil_append]
+    · cases hs : splitWs (c :: rest) with
+      | nil => exact absurd hs (splitWs_ne_nil_of_head c rest hc)
+      | cons w ws =>
+        simp only [hc, Bool.false_eq_true, if_false, cut_addWords_false, List.nil_append]
+
+example : splitWs [32, 97, 32, 32, 98, 99, 32] = [[97], [98, 99]] := by decide
+example : addText exBoth 3 [102, 102, 105, 32, 97] =
+    [.lig 14 3 [102, 102, 105] false false, .lig 33 3 [] false true, .glue, .kern 5, .ch 97 3] := by decide
 
 /-- The hypothesis of `compiled_eq_interp` cannot be dropped: on a program with a looping
 pair the machine does not terminate on a word that reaches it, while the compiled run does
